@@ -14,6 +14,8 @@ mod c02_predicates;
 
 #[cfg(all(kani, feature = "c08"))]
 mod c08_pruning;
+#[cfg(all(kani, feature = "c08"))]
+mod c08_trie;
 
 #[cfg(all(kani, feature = "c09"))]
 mod c09_aggregates;
@@ -23,3 +25,6 @@ mod c10_order;
 
 #[cfg(all(kani, feature = "c16"))]
 mod c16_time;
+
+#[cfg(all(kani, feature = "c07"))]
+mod c07_values;
